@@ -62,6 +62,19 @@ pub fn arg_pool() -> Vec<(&'static str, String)> {
         ("perm", "rwix *|r".into()),
         ("slash", "../x".into()),
         ("admin-db", "$admin".into()),
+        // long runs of multi-byte characters at every byte alignment: whatever fixed-size buffer, log cap or chunk boundary
+        // (256 ... 65536) the text meets, some variant has a character straddling it
+        ("mb2-a", "é".repeat(2100)),
+        ("mb2-b", format!("x{}", "é".repeat(2100))),
+        ("mb3-a", "漢".repeat(1400)),
+        ("mb3-b", format!("x{}", "漢".repeat(1400))),
+        ("mb3-c", format!("xx{}", "漢".repeat(1400))),
+        ("mb4-a", "🔑".repeat(1100)),
+        ("mb4-b", format!("x{}", "🔑".repeat(1100))),
+        ("mb4-c", format!("xx{}", "🔑".repeat(1100))),
+        ("mb4-d", format!("xxx{}", "🔑".repeat(1100))),
+        ("mb2-64k-a", "é".repeat(33_000)),
+        ("mb2-64k-b", format!("x{}", "é".repeat(33_000))),
     ]
 }
 
